@@ -40,7 +40,7 @@ var (
 	grantV    = []string{"authorization_code", "refresh_token", "client_credentials", string(oidc.GrantTypeBearer),
 		string(oidc.GrantTypeTokenExchange), string(oidc.GrantTypeDeviceCode), "implicit", "password", ""}
 	grantT = []string{"code", "refresh", "client_credentials", "jwt_bearer", "token_exchange", "device_code", "implicit", "unknown", "missing"}
-	secN   = []string{"SRight", "SWrong"}
+	secN   = []string{"SRight", "SWrong", "SEmpty"}
 	assN   = []string{"AOk", "AWrongKey", "AWrongAud"}
 )
 
@@ -74,7 +74,18 @@ const (
 	pXPost   // form client_id=X, client_secret=secret(X) + Basic Y:wrong
 	pXPostID // form client_id=Y, client_secret=secret(X)
 	pXDup    // body client_id=X, client_secret=secret(X) + URL query client_id=Y
+	// partial credentials
+	pAssertTypeOnly  // client_id + client_assertion_type, no client_assertion
+	pAssertNoType    // valid client_assertion, no client_assertion_type
+	pAssertWrongType // valid client_assertion, another client_assertion_type
 )
+
+func isCross(k int) bool { return k >= pXBasic && k <= pXDup }
+
+var partialN = map[int]string{pAssertTypeOnly: "PAssertTypeOnly", pAssertNoType: "PAssertNoType", pAssertWrongType: "PAssertWrongType"}
+var partialT = map[int]string{pAssertTypeOnly: "assertion_type_only", pAssertNoType: "assertion_no_type", pAssertWrongType: "assertion_wrong_type"}
+var prevN = []string{"NoPrev", "PrevAssert", "PrevBasic", "PrevPost"}
+var prevT = []string{"none", "assertion", "basic", "post"}
 
 var crossN = map[int]string{pXBasic: "PXBasic", pXAssert: "PXAssert", pXPost: "PXPost", pXPostID: "PXPostId", pXDup: "PXDup"}
 var crossT = map[int]string{pXBasic: "cross_basic", pXAssert: "cross_assertion", pXPost: "cross_post_basic_other", pXPostID: "cross_post_other_id", pXDup: "cross_dup_client_id"}
@@ -118,6 +129,7 @@ type caseT struct {
 	Pres     presT
 	Grant    int
 	Pl       plT
+	Prev     int    // 0 = first request on the fixture state; 1..3 = preceded by a fully credentialed request of a third client
 	Tag      string // extra tag for directed cases
 }
 
@@ -149,6 +161,8 @@ func (p presT) coq() string {
 		return emit.Ctor("PAssert", assN[p.A])
 	case pBoth:
 		return emit.Ctor("PBoth", secN[p.B], secN[p.P])
+	case pAssertTypeOnly, pAssertNoType, pAssertWrongType:
+		return partialN[p.Kind]
 	}
 	return emit.Ctor(crossN[p.Kind], methN[p.VM])
 }
@@ -170,13 +184,15 @@ func (p presT) tag() string {
 		return "post_" + strings.ToLower(secN[p.P][1:])
 	case pAssert:
 		return "assertion_" + strings.ToLower(assN[p.A][1:])
-	case pXBasic, pXAssert, pXPost, pXPostID:
+	case pXBasic, pXAssert, pXPost, pXPostID, pXDup:
 		return crossT[p.Kind]
+	case pAssertTypeOnly, pAssertNoType, pAssertWrongType:
+		return partialT[p.Kind]
 	}
 	return "both_" + strings.ToLower(secN[p.B][1:]) + "_" + strings.ToLower(secN[p.P][1:])
 }
 func (c caseT) coq() string {
-	return emit.Ctor("mkInput", routerN[c.Router], endpointN[c.Endpoint], c.Cfg.coq(), c.Reg.coq(), c.Pres.coq(), grantN[c.Grant], c.Pl.coq())
+	return emit.Ctor("mkInput", routerN[c.Router], endpointN[c.Endpoint], c.Cfg.coq(), c.Reg.coq(), c.Pres.coq(), grantN[c.Grant], c.Pl.coq(), prevN[c.Prev])
 }
 
 func onoff(b bool) string {
@@ -204,7 +220,8 @@ func (c caseT) tags() []string {
 	if c.Endpoint == eToken {
 		t = append(t, "pl_grant="+gplaceT[c.Pl.Grant])
 	}
-	if c.Pres.Kind >= pXBasic {
+	t = append(t, "prev="+prevT[c.Prev])
+	if isCross(c.Pres.Kind) {
 		t = append(t, "victim="+strings.ToLower(methN[c.Pres.VM][1:]))
 	}
 	if c.Tag != "" {
@@ -222,6 +239,8 @@ type world struct {
 }
 
 var worlds = map[cfgT]*world{}
+
+var primerFailed int // primer requests that were not answered active:true (must stay 0)
 
 func worldOf(c cfgT) *world {
 	if w, ok := worlds[c]; ok {
@@ -292,8 +311,8 @@ func run(c caseT) outcome {
 	stored := secret
 	hasSecret := c.Reg.Meth == 0 || c.Reg.Meth == 1
 	if !hasSecret {
-		stored = "\x00no-secret-" + id // storage contract: a client without a registered secret never passes the secret check
-		secret = "decoy-secret"
+		stored = ""             // refstore contract: AuthorizeClientIDSecret(id, "") succeeds for a client without a secret
+		secret = "decoy-secret" // what "the right secret" means for a client that has none
 	}
 	// every case starts from an empty store (the fixture keeps keys and users)
 	st.Clients = map[string]*refstore.Client{}
@@ -301,7 +320,7 @@ func run(c caseT) outcome {
 	st.AuthReqs, st.Codes = map[string]*refstore.AuthRequest{}, map[string]string{}
 	st.Devices, st.UserCode = map[string]*refstore.Device{}, map[string]string{}
 	// cross-client presentations: a second, confidential client Y owns the grant artefact
-	cross := c.Pres.Kind >= pXBasic
+	cross := isCross(c.Pres.Kind)
 	vid := "v" + id
 	owner := id
 	if cross {
@@ -309,7 +328,7 @@ func run(c caseT) outcome {
 		v := &refstore.Client{ID: vid, Secret: "sec-" + vid, Redirects: []string{redirectURI}, App: op.ApplicationTypeWeb, Auth: methV[c.Pres.VM],
 			RespTypes: []oidc.ResponseType{oidc.ResponseTypeCode}, ATType: op.AccessTokenTypeBearer}
 		if c.Pres.VM >= 2 {
-			v.Secret = "\x00no-secret-" + vid
+			v.Secret = ""
 		}
 		if c.Pres.VM == 2 {
 			v.Keys = map[string]*jose.JSONWebKey{"k1": {Key: &otherKey.PublicKey, KeyID: "k1", Algorithm: "ES256", Use: "sig"}}
@@ -395,10 +414,13 @@ func run(c caseT) outcome {
 	dupQueryID := ""
 	basicID, basicSec, useBasic := "", "", false
 	sec := func(k int) string {
-		if k == 0 {
+		switch k {
+		case 0:
 			return secret
+		case 1:
+			return "wrong-secret"
 		}
-		return "wrong-secret"
+		return ""
 	}
 	switch c.Pres.Kind {
 	case pIDOnly:
@@ -450,6 +472,14 @@ func run(c caseT) outcome {
 		cform.Set("client_id", id)
 		cform.Set("client_secret", secret)
 		dupQueryID = vid
+	case pAssertTypeOnly:
+		cform.Set("client_id", id)
+		cform.Set("client_assertion_type", oidc.ClientAssertionTypeJWTAssertion)
+	case pAssertNoType:
+		cform.Set("client_assertion", signAssertion(rightKey, id, []string{opfix.Issuer}))
+	case pAssertWrongType:
+		cform.Set("client_assertion", signAssertion(rightKey, id, []string{opfix.Issuer}))
+		cform.Set("client_assertion_type", "urn:ietf:params:oauth:client-assertion-type:saml2-bearer")
 	}
 	// placement
 	body, query := url.Values{}, url.Values{}
@@ -502,6 +532,42 @@ func run(c caseT) outcome {
 	if useBasic {
 		req.Header.Set("Authorization", "Basic "+base64.StdEncoding.EncodeToString([]byte(basicID+":"+basicSec)))
 	}
+	// sequence: the same provider instance first serves an introspection request of a third client P
+	// that carries P's full credential
+	pid := "p" + id
+	if c.Prev > 0 {
+		pc := &refstore.Client{ID: pid, Secret: "sec-" + pid, App: op.ApplicationTypeWeb, Auth: oidc.AuthMethodBasic, ATType: op.AccessTokenTypeBearer,
+			Keys: map[string]*jose.JSONWebKey{"k1": {Key: &rightKey.PublicKey, KeyID: "k1", Algorithm: "ES256", Use: "sig"}}}
+		st.Clients[pid] = pc
+		st.Tokens["at-"+pid] = &refstore.Token{ID: "at-" + pid, ClientID: pid, Subject: "alice", Audience: []string{pid}, Scopes: []string{"openid"}, Expiration: now.Add(time.Hour)}
+		ptok, _ := w.f.Provider.Crypto().Encrypt("at-" + pid + ":alice")
+		pf := url.Values{"token": {ptok}}
+		preq := func() *http.Request {
+			rq := httptest.NewRequest(http.MethodPost, opfix.Issuer+"/oauth/introspect", strings.NewReader(pf.Encode()))
+			rq.Header.Set("Content-Type", "application/x-www-form-urlencoded")
+			return rq
+		}
+		var rq *http.Request
+		switch c.Prev {
+		case 1:
+			pf.Set("client_assertion_type", oidc.ClientAssertionTypeJWTAssertion)
+			pf.Set("client_assertion", signAssertion(rightKey, pid, []string{opfix.Issuer}))
+			rq = preq()
+		case 2:
+			rq = preq()
+			rq.SetBasicAuth(pid, "sec-"+pid)
+		default:
+			pf.Set("client_id", pid)
+			pf.Set("client_secret", "sec-"+pid)
+			rq = preq()
+		}
+		pr := opfix.Do(w.f.Handlers[c.Router], rq)
+		if c.Prev == 3 && c.Router == 0 {
+			// the Provider router's introspection reads no form secret: that primer is refused, by design
+		} else if b, _ := pr.JSON["active"].(bool); !b {
+			primerFailed++
+		}
+	}
 	resp := opfix.Do(w.f.Handlers[c.Router], req)
 
 	o := outcome{Status: resp.Status, Panic: resp.Panic, Writes: resp.Writes, Body: resp.Body}
@@ -527,7 +593,7 @@ func run(c caseT) outcome {
 	// whom did the answer act for: the owner of a token or device code it created, of the token it
 	// revoked, of the token it reported active
 	for tid, t := range st.Tokens {
-		if tid != "at-"+id {
+		if tid != "at-"+id && tid != "at-"+pid {
 			o.Who = t.ClientID
 			if o.Who == "" {
 				o.Who = t.Subject // jwt-bearer: the token belongs to the assertion's issuer
@@ -595,12 +661,13 @@ func (o outcome) coq() string {
 
 func allPres() []presT {
 	ps := []presT{{Kind: pNone}, {Kind: pIDOnly}, {Kind: pBasicBadEsc}, {Kind: pBasicBadEsc, BadID: true}}
-	for s := 0; s < 2; s++ {
+	for s := 0; s < 3; s++ {
 		ps = append(ps, presT{Kind: pBasic, B: s}, presT{Kind: pBasic, B: s, Pct: true}, presT{Kind: pPost, P: s})
-		for s2 := 0; s2 < 2; s2++ {
+		for s2 := 0; s2 < 3; s2++ {
 			ps = append(ps, presT{Kind: pBoth, B: s, P: s2})
 		}
 	}
+	ps = append(ps, presT{Kind: pAssertTypeOnly}, presT{Kind: pAssertNoType}, presT{Kind: pAssertWrongType})
 	for a := 0; a < 3; a++ {
 		ps = append(ps, presT{Kind: pAssert, A: a})
 	}
@@ -682,6 +749,9 @@ func randomCase(r drv.Rand) caseT {
 	// presentation: the one fitting the registration half of the time, anything otherwise
 	c.Pres = drawPres(r)
 	c.Pl = drawPl(r)
+	if r.Chance(1, 4) {
+		c.Prev = 1 + r.IntN(3)
+	}
 	if r.Bool() {
 		switch c.Reg.Meth {
 		case 0:
@@ -773,6 +843,20 @@ func systematic() []caseT {
 					}
 				}
 			}
+			// (4) hollow and partial credentials, as the first request and right after a fully credentialed request of
+			// a third client (assertion / Basic), for a basic, a private_key_jwt and a public client X
+			hollow := []presT{{Kind: pNone}, {Kind: pIDOnly}, {Kind: pBasic, B: 2}, {Kind: pPost, P: 2}, {Kind: pAssertTypeOnly}, {Kind: pAssertNoType}, {Kind: pAssertWrongType}}
+			for _, meth := range []int{0, 2, 3} {
+				for _, pr := range hollow {
+					for _, prev := range []int{0, 1, 2} {
+						if prev == 2 && pr.Kind > pIDOnly {
+							continue
+						}
+						rg := regT{Known: true, Meth: meth, App: 0, Grants: full(), HasKey: true}
+						cs = append(cs, caseT{Router: router, Endpoint: x.e, Grant: x.g, Cfg: allOn, Reg: rg, Pres: pr, Prev: prev, Tag: "block=hollow_and_sequence"})
+					}
+				}
+			}
 			// (3) where the parameters travel: one dimension moved at a time, client registered for the grant at
 			// stake or not, secret in the header or in the form
 			pls := []plT{{1, 0, 0}, {2, 0, 0}, {3, 0, 0}, {0, 1, 0}, {0, 0, 1}, {1, 1, 1}}
@@ -810,7 +894,9 @@ func enumerate(r drv.Rand, emitCase func(caseT)) {
 		for e := 0; e < 4; e++ {
 			grants := []int{gMissing}
 			if e == eToken {
-				grants = []int{0, 1, 2, 3, 4, 5, 6, 7, 8}
+				// device_code first: the recorded finding Fxx-C05-4 makes some of these cases violate the predicate, and
+				// a shard that reports a case id above ~31000 overflows coqc's stack (ids are unary nats)
+				grants = []int{5, 0, 1, 2, 3, 4, 6, 7, 8}
 			}
 			for _, g := range grants {
 				for meth := 0; meth < 4; meth++ {
@@ -820,6 +906,9 @@ func enumerate(r drv.Rand, emitCase func(caseT)) {
 								for v := 0; v < 8; v++ { // v: known/registered/key/capability variants
 									c := caseT{Router: router, Endpoint: e, Grant: g, Pres: p, Pl: drawPl(r)}
 									c.Pres.VM = r.IntN(4)
+									if r.Chance(1, 4) {
+										c.Prev = 1 + r.IntN(3)
+									}
 									c.Cfg = cfgT{bits(flags, 0), bits(flags, 1), bits(flags, 2), r.Bool(), r.Bool(), r.Bool()}
 									capOn := bits(v, 0)
 									switch grantOf(e, g) {
@@ -885,7 +974,7 @@ func main() {
 	}
 	exhaustive := false
 	if cfg.Quick || cfg.N > 0 {
-		n := cfg.Count(900, 0)
+		n := cfg.Count(700, 0)
 		for i := 0; i < n; i++ {
 			add(randomCase(r))
 		}
@@ -894,7 +983,8 @@ func main() {
 		enumerate(r, add)
 	}
 	err := w.Close(emit.Meta{Property: "C05", Tier: cfg.Tier, Seed: cfg.Seed, Exhaustive: exhaustive,
-		Rule: "one HTTP request per case against the Provider or the LegacyServer router over refstore, with an otherwise valid grant (code+PKCE, refresh token, device code, subject token, key-signed assertion) prepared in an emptied store for the case's client X - or, for the four cross-client presentations, for a second confidential client Y whose id the request mixes with X's valid credential; varied: registration (auth method, grant set, app type, key, known), presented credential (20 forms), grant_type (9), provider flags and storage capabilities (6 switches), endpoint (4); observed also: the client the answer acted for (owner of the created token / device code, of the revoked or active token). Both tiers: directed defect inputs + systematic blocks (router x endpoint/grant x auth method x application type with fitting credential and with client_id only; router x endpoint/grant x cross-client presentation). quick: + random draws (fitting credential half of the time); thorough: + the cross product, enumerating of the grant set only the membership of the grant at stake, of the six switches the three flags and the capability at stake, and drawing the application type. Non-trivial = model path class != 0 (the request got past the first guard of its handler); distinct = distinct (input, path class).",
+		Extra: map[string]any{"primer_requests_not_answered_active": primerFailed},
+		Rule:  "one HTTP request per case against the Provider or the LegacyServer router over refstore, with an otherwise valid grant (code+PKCE, refresh token, device code, subject token, key-signed assertion) prepared in an emptied store for the case's client X - or, for the four cross-client presentations, for a second confidential client Y whose id the request mixes with X's valid credential; varied: registration (auth method, grant set, app type, key, known), presented credential (20 forms), grant_type (9), provider flags and storage capabilities (6 switches), endpoint (4); observed also: the client the answer acted for (owner of the created token / device code, of the revoked or active token). Both tiers: directed defect inputs + systematic blocks (router x endpoint/grant x auth method x application type with fitting credential and with client_id only; router x endpoint/grant x cross-client presentation). quick: + random draws (fitting credential half of the time); thorough: + the cross product, enumerating of the grant set only the membership of the grant at stake, of the six switches the three flags and the capability at stake, and drawing the application type. Non-trivial = model path class != 0 (the request got past the first guard of its handler); distinct = distinct (input, path class).",
 	})
 	if err != nil {
 		fmt.Fprintln(os.Stderr, err)
